@@ -103,9 +103,67 @@ theorem pyramid_consistent (B : Int) (hB : 0 < B) (lv : Nat → Vol) (v0' : Vol)
       (hcons (k + 1)) hout x y z
 
 
+theorem vote_const (ls : List Nat) (l : Nat) (hne : ls ≠ []) (h : ∀ v ∈ ls, v = l) : vote ls = l := by
+  rcases C10.vote_spec ls with ⟨h0, hall⟩ | ⟨_, hm, _⟩
+  · cases ls with
+    | nil => exact absurd rfl hne
+    | cons a t =>
+      have := hall a (by simp)
+      have := h a (by simp)
+      omega
+  · exact h _ hm
+
+/-- **`Block.Downres` on a subset of octants is sound**: if the stored block was the vote over the old level
+    below and the level below changed only inside the octants handed in, the block after `Downres` is the vote
+    over the new level below at every voxel — including the solid-block shortcut -/
+theorem blockDownres_sound (stored below below' : Vol) (given : Nat → Bool) (solid : Nat → Option Nat)
+    (octOf : Int → Int → Int → Nat)
+    (hstored : ∀ x y z, stored x y z = level1 below x y z)
+    (hchg : ∀ x y z, given (octOf x y z) = false → under below' x y z = under below x y z)
+    (hoct : ∀ x y z, octOf x y z < 8)
+    (hsolid : ∀ o l, given o = true → solid o = some l → ∀ x y z, octOf x y z = o → ∀ v ∈ under below' x y z, v = l) :
+    ∀ x y z, blockDownres stored below' given solid octOf x y z = level1 below' x y z := by
+  intro x y z
+  have hslow : (if given (octOf x y z) then level1 below' x y z else stored x y z) = level1 below' x y z := by
+    split
+    · rfl
+    · rename_i hg
+      rw [hstored]; unfold level1
+      rw [hchg x y z (by simpa using hg)]
+  unfold blockDownres blockDownresWith
+  simp only [Gen.downresSolidNeedsAllOctants, ↓reduceIte]
+  cases hs : solid 0 with
+  | none => exact hslow
+  | some l =>
+    simp only
+    by_cases hall : ((List.range 8).all fun o => given o && solid o == some l) = true
+    · rw [if_pos hall]
+      rw [List.all_eq_true] at hall
+      have ho := hall (octOf x y z) (List.mem_range.2 (hoct x y z))
+      simp only [Bool.and_eq_true, beq_iff_eq] at ho
+      unfold level1
+      symm
+      apply vote_const
+      · simp [under]
+      · exact hsolid _ l ho.1 ho.2 x y z rfl
+    · rw [if_neg hall]; exact hslow
+
+/-- **the earlier shape of `setBlank` is unsound**: one solid label-0 octant handed in, the seven others untouched
+    and holding label 5: the block was replaced by a solid 0 block although the vote over the level below is 5
+    in the untouched octants -/
+theorem nil_octant_as_zero_blanks_siblings :
+    let below' : Vol := fun x _ _ => if x < 2 then 0 else 5
+    let octOf : Int → Int → Int → Nat := fun x _ _ => if x < 1 then 0 else 1
+    let given : Nat → Bool := fun o => o == 0
+    let solid : Nat → Option Nat := fun o => if o == 0 then some 0 else none
+    blockDownresWith false (level1 below') below' given solid octOf 1 0 0 = 0 ∧ level1 below' 1 0 0 = 5 ∧
+    blockDownresWith true (level1 below') below' given solid octOf 1 0 0 = 5 := by
+  decide
+
 /-- the regenerated shape facts the model relies on -/
 theorem shape_facts : Gen.downresParentIsHalf = true ∧ Gen.downresOctantFromLowBits = true ∧
-    Gen.downresChainsLevels = true ∧ Gen.downresKeepsUntouchedOctants = true := by decide
+    Gen.downresChainsLevels = true ∧ Gen.downresKeepsUntouchedOctants = true ∧
+    Gen.downresSolidNeedsAllOctants = true := by decide
 
 /-- what each voxel of a level is: C10's vote over the eight voxels beneath -/
 theorem level_voxel_is_vote (v : Vol) (x y z : Int) :
